@@ -14,6 +14,9 @@ CONSTANTS
   FixNullRequired = FALSE
   HasValidator = FALSE
   NilPointerSkipsValidation = TRUE
+  CtxChoices = {"live"}
+  GateChoices = {FALSE}
+  SilentOnCtx = {}
 INIT TableInit
 NEXT TableNext
 
